@@ -51,10 +51,16 @@ func newEthRig(n int) (*ethRig, error) { return newEthRigWS(n, n) }
 
 // n RPC endpoints of which only the first nws also offer a websocket endpoint
 func newEthRigWS(n, nws int) (*ethRig, error) {
+	return newEthRigCfg(n, nws, ethChainID, fmt.Sprint(ethChainID), fmt.Sprint(ethGasLimit), fmt.Sprint(ethGasPrice))
+}
+
+// the same rig with the configuration strings (chain id, gas limit, gas price) spelled by the caller;
+// the endpoints are nodes of chain nodeChain
+func newEthRigCfg(n, nws int, nodeChain int64, cfgChain, cfgLimit, cfgPrice string) (*ethRig, error) {
 	r := &ethRig{}
 	var urls []string
 	for i := 0; i < n; i++ {
-		nd := doubles.NewEthNode(ethChainID, ethBridge, ethProxy, ethCR)
+		nd := doubles.NewEthNode(nodeChain, ethBridge, ethProxy, ethCR)
 		r.nodes = append(r.nodes, nd)
 		urls = append(urls, nd.HTTPURL)
 		if i < nws {
@@ -66,13 +72,19 @@ func newEthRigWS(n, nws int) (*ethRig, error) {
 		return nil, err
 	}
 	r.key = &keystore.Key{Address: crypto.PubkeyToAddress(pk.PublicKey), PrivateKey: pk}
-	cfg := &configuration.Config{ChainID: fmt.Sprint(ethChainID), BlockTime: "1", DOSAddressBridgeAddress: ethBridge.Hex(),
-		EthGasLimit: fmt.Sprint(ethGasLimit), EthGasPrice: fmt.Sprint(ethGasPrice)}
+	cfg := &configuration.Config{ChainID: cfgChain, BlockTime: "1", DOSAddressBridgeAddress: ethBridge.Hex(),
+		EthGasLimit: cfgLimit, EthGasPrice: cfgPrice}
 	ad, err := onchain.NewEthAdaptor(r.key, cfg, doubles.NopLogger{})
 	if err != nil {
+		for _, nd := range r.nodes {
+			nd.Close()
+		}
 		return nil, err
 	}
 	if err := ad.Connect(urls, time.Now().Add(5*time.Second)); err != nil {
+		for _, nd := range r.nodes {
+			nd.Close()
+		}
 		return nil, err
 	}
 	r.adaptor = ad
@@ -167,6 +179,11 @@ func zList(xs []*big.Int) string {
 
 // judge one received raw transaction against what was intended
 func judgeTx(raw []byte, r *ethRig, to common.Address, a abi.ABI, method string, want []interface{}) string {
+	return judgeTxCfg(raw, r, big.NewInt(ethChainID), ethGasLimit, big.NewInt(ethGasPrice), to, a, method, want)
+}
+
+// ... where the configuration in force is chain id chain, gas limit limit, gas price price
+func judgeTxCfg(raw []byte, r *ethRig, chain *big.Int, limit uint64, price *big.Int, to common.Address, a abi.ABI, method string, want []interface{}) string {
 	tx := new(types.Transaction)
 	if err := tx.UnmarshalBinary(raw); err != nil {
 		return "the endpoint received bytes that are not a transaction: " + err.Error()
@@ -174,12 +191,12 @@ func judgeTx(raw []byte, r *ethRig, to common.Address, a abi.ABI, method string,
 	if tx.To() == nil || *tx.To() != to {
 		return "the transaction does not go to the configured contract"
 	}
-	from, err := types.Sender(types.NewEIP155Signer(big.NewInt(ethChainID)), tx)
+	from, err := types.Sender(types.NewEIP155Signer(chain), tx)
 	if err != nil || from != r.key.Address {
-		return "the transaction is not signed by the node key for the configured chain id"
+		return fmt.Sprintf("the transaction is not signed by the node key for the configured chain id %s (it is signed for chain id %s)", chain, tx.ChainId())
 	}
-	if tx.Gas() != ethGasLimit || tx.GasPrice().Cmp(big.NewInt(ethGasPrice)) != 0 {
-		return fmt.Sprintf("gas settings differ from the configuration: limit %d price %s", tx.Gas(), tx.GasPrice())
+	if tx.Gas() != limit || tx.GasPrice().Cmp(price) != 0 {
+		return fmt.Sprintf("gas settings differ from the configuration (limit %d price %s): limit %d price %s", limit, price, tx.Gas(), tx.GasPrice())
 	}
 	if tx.Value().Sign() != 0 {
 		return "the transaction carries value"
@@ -324,9 +341,160 @@ func genC19(rng *hx.Rng, tier string, w *hx.Writer) error {
 		w.Put(hx.Case{Entry: "abi", Op: entryOp, Args: args, Impl: impl, Oracle: oracle, Tags: []string{"call", "m:" + method, "nt"}})
 	}
 	rig.close()
+	genC19Config(rng, tier, w)
 	genC19Failover(rng, tier, w)
 	genC19History(rng, tier, w)
 	return nil
+}
+
+// The configuration is a file of strings: the chain id, the gas limit and the gas price are decimal
+// numerals, and a numeral may be written with leading zeros (a zero-padded column, a templated
+// value).  Whatever the spelling, every state-changing call - through a proxy session or a
+// commit-reveal session, first choice or fail-over - is signed by the node key for THE NUMBER the
+// configuration denotes and carries the gas settings it denotes.  The chains of the shipped
+// configurations, small ids and random ones; numerals with and without the digits 8 and 9.
+func genC19Config(rng *hx.Rng, tier string, w *hx.Writer) {
+	spell := func(v int64, pad int) string { return strings.Repeat("0", pad) + fmt.Sprint(v) }
+	chains := []int64{1, 56, 66, 128, 256, 100, 137, 42161, 7, 10, 4, 89, 5777, 1337, 43114, 11155111}
+	nCfg := 10
+	if tier == "thorough" {
+		nCfg = 80
+	}
+	for it := 0; it < nCfg; it++ {
+		var chain int64
+		switch it % 4 {
+		case 0, 1:
+			chain = chains[rng.Intn(len(chains))]
+			if it == 1 {
+				chain = 100
+			}
+		case 2:
+			chain = 1 + int64(rng.Intn(1<<30))
+		default:
+			chain = 1 + int64(rng.Intn(8))*8 + int64(rng.Intn(8)) // one or two digits
+		}
+		padC, padL, padP := 0, 0, 0
+		if it%2 == 1 || it%8 == 2 {
+			padC = 1 + rng.Intn(3)
+		}
+		if it%3 == 2 {
+			padL = 1 + rng.Intn(2)
+		}
+		if it%5 == 3 {
+			padP = 1 + rng.Intn(2)
+		}
+		limit := int64(200000 + rng.Intn(6000000))
+		price := int64(1000000000 + rng.Intn(9000000)*1000)
+		if it%4 == 0 {
+			limit, price = ethGasLimit, ethGasPrice
+		}
+		cfgChain, cfgLimit, cfgPrice := spell(chain, padC), spell(limit, padL), spell(price, padP)
+		n := 1 + it%2
+		tags := []string{"config", fmt.Sprintf("endpoints:%d", n), "nt"}
+		if padC > 0 {
+			tags = append(tags, "chain-id-zero-padded")
+		} else {
+			tags = append(tags, "chain-id-canonical")
+		}
+		if padL+padP > 0 {
+			tags = append(tags, "gas-zero-padded")
+		}
+		args := func(kind int) string {
+			return hx.L(hx.B([]byte(cfgChain)), hx.B([]byte(cfgLimit)), hx.B([]byte(cfgPrice)), hx.Zi(n), hx.Zi(kind))
+		}
+		rig, err := newEthRigCfg(n, n, chain, cfgChain, cfgLimit, cfgPrice)
+		if err != nil {
+			w.Put(hx.Case{Entry: "-", Op: 0, Args: args(9), Impl: hx.E, Oracle: hx.Fail("rig", fmt.Sprintf("the adaptor could not be created and connected with chain id %q, gas limit %q, gas price %q: %v", cfgChain, cfgLimit, cfgPrice, err)), Tags: append(tags, "rig")})
+			continue
+		}
+		// one call through a proxy session, one through a commit-reveal session, and (two endpoints)
+		// one that the first endpoint refuses so that the second endpoint's sessions sign it
+		kinds := []int{rng.Intn(3), 3 + rng.Intn(2)}
+		if n == 2 {
+			kinds = append(kinds, rng.Intn(5))
+		}
+		for ci, kind := range kinds {
+			for _, nd := range rig.nodes {
+				nd.Reset()
+			}
+			failover := n == 2 && ci == 2
+			if failover {
+				rig.nodes[rig.order[0]].TxOutcome = func(int) string { return "internal error" }
+			}
+			x, y := randWord(rng), randWord(rng)
+			var method string
+			var a abi.ABI
+			var to common.Address
+			var want []interface{}
+			var callErr error
+			switch kind {
+			case 0:
+				sig := append(word32(x), word32(y)...)
+				method, a, to = "updateRandomness", proxyABI, ethProxy
+				want = []interface{}{[2]*big.Int{x, y}}
+				callErr = rig.adaptor.UpdateRandomness(&vss.Signature{Signature: sig})
+			case 1:
+				sig := append(word32(x), word32(y)...)
+				rid, content := rng.Bytes(1+rng.Intn(32)), rng.Bytes(rng.Intn(70))
+				method, a, to = "triggerCallback", proxyABI, ethProxy
+				want = []interface{}{new(big.Int).SetBytes(rid), uint8(2), content, [2]*big.Int{x, y}}
+				callErr = rig.adaptor.DataReturn(&vss.Signature{Index: 2, RequestId: rid, Content: content, Signature: sig})
+			case 2:
+				v := [5]*big.Int{x, y, randWord(rng), randWord(rng), randWord(rng)}
+				method, a, to = "registerGroupPubKey", proxyABI, ethProxy
+				want = []interface{}{v[0], [4]*big.Int{v[1], v[2], v[3], v[4]}}
+				callErr = rig.adaptor.RegisterGroupPubKey(v)
+			case 3:
+				var c [32]byte
+				copy(c[:], rng.Bytes(32))
+				method, a, to = "commit", crABI, ethCR
+				want = []interface{}{x, c}
+				callErr = rig.adaptor.Commit(x, c)
+			default:
+				method, a, to = "reveal", crABI, ethCR
+				want = []interface{}{x, y}
+				callErr = rig.adaptor.Reveal(x, y)
+			}
+			var got [][]byte
+			var from []int
+			for e := 0; e < n; e++ {
+				for _, raw := range rig.nodes[rig.order[e]].Txs() {
+					got = append(got, raw)
+					from = append(from, e)
+				}
+			}
+			wantTx := 1
+			if failover {
+				wantTx = 2
+			}
+			impl, oracle := hx.E, "ok"
+			switch {
+			case callErr != nil:
+				oracle = hx.Fail("call-failed", fmt.Sprintf("%s returned an error although an endpoint accepts everything (chain id %q): %v", method, cfgChain, callErr))
+			case len(got) != wantTx:
+				oracle = hx.Fail("not-one-transaction", fmt.Sprintf("%s reached the endpoints %d time(s), want %d", method, len(got), wantTx))
+			default:
+				var seen []string
+				for i, raw := range got {
+					tx := new(types.Transaction)
+					if tx.UnmarshalBinary(raw) == nil {
+						seen = append(seen, hx.L(hx.Z(tx.ChainId()), hx.Z(new(big.Int).SetUint64(tx.Gas())), hx.Z(tx.GasPrice())))
+					}
+					if msg := judgeTxCfg(raw, rig, big.NewInt(chain), uint64(limit), big.NewInt(price), to, a, method, want); msg != "" && oracle == "ok" {
+						oracle = hx.Fail("config-not-in-force", fmt.Sprintf("configuration chain id %q, gas limit %q, gas price %q; %s as received by endpoint %d: %s", cfgChain, cfgLimit, cfgPrice, method, from[i], msg))
+					}
+				}
+				impl = hx.L(seen...)
+			}
+			ctags := append([]string{}, tags...)
+			ctags = append(ctags, "m:"+method)
+			if failover {
+				ctags = append(ctags, "failover")
+			}
+			w.Put(hx.Case{Entry: "-", Op: 0, Args: args(kind), Impl: impl, Oracle: oracle, Tags: ctags})
+		}
+		rig.close()
+	}
 }
 
 var c19ReadTexts = map[int][]string{
